@@ -81,7 +81,7 @@ func runC16(w *core.World, r *core.Report) {
 				continue
 			}
 			n1++
-			r.Bad("R1", fmt.Sprintf("%s: numeric %s re-rendered as text for %s", core.QName(fn), fromNum, sink), c.Pos(),
+			r.Bad("R1", fmt.Sprintf("%s: numeric %s re-rendered as text", reRenderSite(fn), fromNum), c.Pos(),
 				"a selector that looks numeric is parsed to an integer and printed again before it is written: `00` is emitted as `0` and `1a` loses its letter - not what the author wrote")
 		}
 	}
@@ -95,7 +95,8 @@ func runC16(w *core.World, r *core.Report) {
 		okIdx := false
 		for _, c := range core.Calls(ps) {
 			g := core.StaticCallee(c)
-			if g == nil || core.PkgOf(g) != "asm" || len(core.CallsTo(g, "asm.writeOpcode")) == 0 {
+			wop := asmWriter(w, "vm.Opcode")
+			if g == nil || wop == nil || core.PkgOf(g) != "asm" || len(callsToSet(g, map[*ssa.Function]bool{wop: true})) == 0 {
 				continue
 			}
 			// the opcode argument derives from a lookup in vm.OpcodeIndex keyed by the line's OpCode field
@@ -123,7 +124,7 @@ func runC16(w *core.World, r *core.Report) {
 				}
 			}
 			// exactly one writeOpcode, with the parameter
-			wo := core.CallsTo(g, "asm.writeOpcode")
+			wo := callsToSet(g, map[*ssa.Function]bool{wop: true})
 			okOne := len(wo) == 1 && paramIndex(core.CallArgs(wo[0])[1]) >= 0
 			r.Check(okOne, "R3", core.QName(g)+": one opcode per line", g.Pos(), "writeOpcode(parameter) once", "the line emitter does not write exactly the opcode it was given, once")
 		}
@@ -360,4 +361,13 @@ func checkBatchExpansion(w *core.World, r *core.Report) {
 			fmt.Sprintf("ToLines expands %s to [%s] but the documentation says [%s]", bn, got.String(), want.String()))
 	}
 	r.Floor("R2", "documented single-line batch expansions", ndoc, 4)
+}
+
+// reRenderSite names a re-rendering site: exported methods by name, unexported functions of the
+// assembler by what they emit.
+func reRenderSite(fn *ssa.Function) string {
+	if token.IsExported(fn.Name()) {
+		return core.QName(fn)
+	}
+	return "asm line emitter (two-symbol layout)"
 }
